@@ -87,6 +87,8 @@ def loop_paths(ctx, heap=None, collections=None, havoc_on_call=True, bind=None, 
     def pol(call, callee, depth):
         # private pieces of the step (update / perform / record / pay wrappers, whatever they are called) are followed; the
         # allocation phase stays one opaque call (it has its own analysis)
+        if callee.cls is None and getattr(callee, "parent", None) is None and is_private_helper(callee) and id(callee.node) not in allocator:
+            return True   # a private module-level helper (a lookup table's accessor ...)
         return callee.cls == PROJECT and callee.name.startswith("_") and not callee.name.endswith("__") and id(callee.node) not in allocator
 
     base_pol = pol
